@@ -131,9 +131,7 @@ impl SignatureConverter<'_> {
                 1,
                 self.gen_impl_receiver(Span::call_site(), deps_lifetime.as_ref()),
             );
-            if deps_lifetime.is_none() {
-                super::tie_elided_output_to_impl(sig);
-            }
+            super::tie_elided_output_to_impl(sig, deps_lifetime.as_ref());
         }
     }
 
